@@ -1,4 +1,6 @@
 CONSTANTS
+  TransitiveSkip = TRUE
+  FaultMaxN = 3
   MaxN = 4
   Family = "mix"
 SPECIFICATION Spec
